@@ -112,7 +112,8 @@ func (c *concConn) Write(p []byte) (int, error) {
 	if c.log.rtu {
 		reply = withCRC([]byte{p[0], 16, p[2], p[3], 0, 1})
 	} else {
-		reply = []byte{p[0], p[1], 0, 0, 0, 6, p[6], 16, p[8], p[9], 0, 1}
+		// FC3 response whose payload names the request: the parsed value keeps a slice of the received bytes
+		reply = []byte{p[0], p[1], 0, 0, 0, 7, p[6], 3, 4, p[8], p[9], ^p[8], ^p[9]}
 	}
 	n := id%3 + 1
 	c.qmu.Lock()
@@ -223,6 +224,12 @@ func execConc(ts []string) string {
 		return "BADOP"
 	}
 	results := make([][]string, len(progs))
+	type keptReply struct {
+		idx  int
+		resp *packet.ReadHoldingRegistersResponseTCP
+		tid  uint16
+	}
+	kept := make([][]keptReply, len(progs))
 	var wg sync.WaitGroup
 	start := make(chan struct{})
 	var panicked atomic.Bool
@@ -259,7 +266,7 @@ func execConc(ts []string) string {
 					var req packet.Request
 					var err error
 					if kind == "t" {
-						req, err = packet.NewWriteMultipleRegistersRequestTCP(1, uint16(id), []byte{0, 1})
+						req, err = packet.NewReadHoldingRegistersRequestTCP(1, uint16(id), 2)
 					} else {
 						req, err = packet.NewWriteMultipleRegistersRequestRTU(1, uint16(id), []byte{0, 1})
 					}
@@ -281,13 +288,10 @@ func execConc(ts []string) string {
 						break
 					}
 					switch r := resp.(type) {
-					case *packet.WriteMultipleRegistersResponseTCP:
-						rq := req.(*packet.WriteMultipleRegistersRequestTCP)
-						if r.TransactionID != rq.TransactionID && int(r.StartAddress) == id {
-							out = "e-tid"
-						} else {
-							out = fmt.Sprintf("r%d", r.StartAddress)
-						}
+					case *packet.ReadHoldingRegistersResponseTCP:
+						// judged when every goroutine has finished: the reply must still be the caller's own then
+						kept[t] = append(kept[t], keptReply{len(results[t]), r, req.(*packet.ReadHoldingRegistersRequestTCP).TransactionID})
+						out = "pending"
 					case *packet.WriteMultipleRegistersResponseRTU:
 						out = fmt.Sprintf("r%d", r.StartAddress)
 					default:
@@ -308,6 +312,19 @@ func execConc(ts []string) string {
 	}
 	if panicked.Load() {
 		return "PANIC"
+	}
+	for t := range kept {
+		for _, k := range kept[t] {
+			d := k.resp.Data
+			switch {
+			case len(d) != 4 || d[2] != ^d[0] || d[3] != ^d[1]:
+				results[t][k.idx] = "e-corrupt"
+			case k.resp.TransactionID != k.tid:
+				results[t][k.idx] = "e-tid"
+			default:
+				results[t][k.idx] = fmt.Sprintf("r%d", int(d[0])<<8|int(d[1]))
+			}
+		}
 	}
 	var rs []string
 	for _, r := range results {
